@@ -166,6 +166,20 @@ func (c *Ctx) funcxRun() map[string]*simpleVerdict {
 		if h.fault != "" {
 			note("table", "", h.fault)
 		} else {
+			// looking functions up, and evaluating expressions that call them, leaves the table as it is
+			orderBefore, _, _ := collectionEntries(c, h.m, h.collT)
+			printBefore := mFingerprint(h.coll)
+			defer func() {
+				orderAfter, _, _ := collectionEntries(c, h.m, h.collT)
+				switch {
+				case fmt.Sprint(orderAfter) != fmt.Sprint(orderBefore):
+					note("table-unchanged", fmt.Sprintf("after looking every function up by name the table lists %q; before it listed %q: a lookup reorders the function table (evaluations modify it, concurrent ones race on it)", orderAfter, orderBefore), "")
+				case mFingerprint(h.coll) != printBefore:
+					note("table-unchanged", "looking functions up by name changes the state of the function table: evaluations modify it, concurrent ones race on it", "")
+				default:
+					note("table-unchanged", "", "")
+				}
+			}()
 			for _, n := range names {
 				for _, spelled := range []string{n, strings.ToLower(n), strings.ToUpper(n)} {
 					f, out := callM(c, h.m, h.collT.t, "FindByName", h.coll, spelled)
@@ -539,7 +553,7 @@ func init() {
 			o := newObl("FUNC.model")
 			res := c.funcxRun()
 			pos := c.Pos(c.MustFunc(pkgFunctions, "", "NewDefaultFunctionCollection").Pos())
-			for _, k := range []string{"table", "arity", "meaning", "semantics", "arguments-unchanged"} {
+			for _, k := range []string{"table", "arity", "meaning", "semantics", "arguments-unchanged", "table-unchanged"} {
 				v := res[k]
 				if v == nil {
 					v = &simpleVerdict{}
